@@ -89,6 +89,19 @@ def cluster_real(X, f, mx, phi, t):
 
     prob = FunctionProblem(lambda x: 0.0, bounds=np.array([[-10.0, 10.0]] * X.shape[1]), maximize=mx)
     inds = [Individual(X[i].copy(), prob, float(f[i])) for i in range(len(X))]
+    # where the Individual objects come from must not matter: a (mu + lambda) population holds offspring made
+    # with `clone()` / `copy` of their parents (shared bookkeeping fields, own genome and fitness)
+    import copy
+    import zlib
+
+    mode = zlib.crc32(np.ascontiguousarray(X).tobytes()) % 3
+    if mode and len(inds) >= 2:
+        for i in range(1, len(inds)):
+            src = inds[(i - 1) // 2]
+            c = src.clone() if mode == 1 else (copy.copy(src) if i % 2 else copy.deepcopy(src))
+            c.genome = X[i].copy()
+            c.fitness = float(f[i])
+            inds[i] = c
     nbc = NearestBetterClustering(inds, phi, t)
     seeds = nbc.cluster()
     ids = {id(ind): i for i, ind in enumerate(inds)}
